@@ -1,28 +1,15 @@
 import BufProofs.Props.C15
 #print axioms BufProofs.C15.facts_hold
-#print axioms BufProofs.C15.writeChunks_none
 #print axioms BufProofs.C15.writeObj_ok
 #print axioms BufProofs.C15.fault_implies_error_put
 #print axioms BufProofs.C15.fault_implies_error_close
-#print axioms BufProofs.C15.writeChunks_fault
 #print axioms BufProofs.C15.fault_implies_error_write
-#print axioms BufProofs.C15.copyPath_err_indep
-#print axioms BufProofs.C15.copyAll_err_iff_any
 #print axioms BufProofs.C15.copyAll_verdict_schedule_independent
 #print axioms BufProofs.C15.copyAll_ok
 #print axioms BufProofs.C15.untarAll_ok
 #print axioms BufProofs.C15.copyPath_counterexample
 #print axioms BufProofs.C15.flush_reports_any_failure
-#print axioms BufProofs.C15.wfold_nil
-#print axioms BufProofs.C15.wfold_cons
-#print axioms BufProofs.C15.wfold_final
-#print axioms BufProofs.C15.wfold_temp
-#print axioms BufProofs.C15.atomicWrites_noFail
 #print axioms BufProofs.C15.atomic_success
-#print axioms BufProofs.C15.atomicWrites_final
-#print axioms BufProofs.C15.atomicWrites_bad_stays
-#print axioms BufProofs.C15.atomicWrites_hits
 #print axioms BufProofs.C15.atomic_failed_leaves_old
-#print axioms BufProofs.C15.foldl_no_rename_final
 #print axioms BufProofs.C15.atomic_prefix_old_or_new
 #print axioms BufProofs.C15.nonatomic_may_truncate
